@@ -12,7 +12,7 @@ NGAS = 9  # opcode boundaries of the worker contract (PUSH1 PUSH1 SSTORE x3; the
 ATT = ["none", "exists", "fxdec", "oset"]
 GOV = ["none", "first", "middle", "last", "midwrite"]
 IBC = ["none", "memo0", "memo1", "memoInvalid", "alias", "unknown", "bech", "pairOff"]
-CALL_BASE = ["none", "revert0", "revert1", "sct0", "sct1", "pair1", "pair2", "pair3", "unknown", "gaslow"]
+CALL_BASE = ["none", "revert0", "revert1", "inv0", "inv1", "under", "jump", "loop", "sct0", "sct1", "pair1", "pair2", "pair3", "unknown", "gaslow"]
 CALL_Q = CALL_BASE + ["gas0", "gas4", "gas8"]                       # a few opcode boundaries
 CALL_T = CALL_BASE + ["gas%d" % i for i in range(NGAS)]             # every executed opcode boundary
 REFUND = ["rA", "rB"]
@@ -42,7 +42,7 @@ ASSUMPTIONS = [
     "differential oracle on real stores: every failing step is executed twice from the same pre-state (branch A: the provoked failure; branch B: the same real code with a sub-step that fails at once - call target reverting immediately, first token pair disabled, first proposal message refused at its handler's first check, packet with an unparseable receiver - or, for the attestation boundary, a claim of the same nonce whose handler only parks it) and the complete multistore dumps are compared key by key",
     "masked keys (they carry the identity of the input and are checked by the boundary's own formula instead): attestation records and parked-claim keys of the eth module, the proposal's own record, the counterparty's packet commitment, the hash of the error acknowledgement (value only), the first token pair's record where branch B toggles it for the duration of the step, harness-private 0xFE keys",
     "attestation boundary: on this tree every handler failure happens before the handler's first write (bridge token exists / FX decimals / unknown oracle set); SendToFx, BridgeCall and BridgeCallResult claims are parked and belong to the call boundary",
-    "call boundary: three registered bridge tokens with amounts 1,2,3; one honest oracle holds all power (observation = one claim); executeClaim through the real precompile in an EVM transaction; gas exhaustion is provoked through the block's maximum gas in the consensus parameters of the executing context (keeper CallEVM replaces the module's BridgeCallMaxGasLimit by it whenever it is set, as on every real chain) at the opcode boundaries of a traced first run in the same pre-state; every claim carries the same external block height so that no bridge-call timeout fires",
+    "call boundary: three registered bridge tokens with amounts 1,2,3; one honest oracle holds all power (observation = one claim); executeClaim through the real precompile in an EVM transaction; callees failing with VM errors other than REVERT (INVALID at once / after a write, stack underflow, bad jump, endless loop burning the whole limit); gas cuts at the opcode boundaries of a traced first run in the same pre-state bound the callee alone through the module's BridgeCallMaxGasLimit, under consensus parameters without a block gas limit (max_gas = -1) because keeper CallEVM replaces every limit by the block's maximum gas when one is set (then the callee always gets the block limit: the 'loop' callee); every claim carries the same external block height so that no bridge-call timeout fires",
     "gov boundary: MsgUpdateStore messages writing marker keys; both validators vote yes; the real x/gov EndBlocker runs at the end of the voting period",
     "ibc boundary: the C19 world (localhost loopback, real MsgRecvPacket through IBC core)",
     "pair toggles are applied and taken back inside the step with the real governance-authority messages",
